@@ -81,11 +81,11 @@ theorem linv_exec (k : Kind) (n : Net) (slot clock : Nat) {st : HState} {m : LMo
     obtain ⟨e, ⟨⟨he, hep, hc⟩, _⟩, rfl⟩ := hx
     exact ⟨e, he, hc, hep, rfl, rfl, Or.inl rfl⟩
 
-/-- a fetch that replaces the epoch's (period's) descriptors by the committee part of the answer keeps the invariant -/
-theorem linv_fetch_replace (k : Kind) (n : Net) (hk : k ≠ .att) {st : HState} {m : LMon} (ep arg : Nat) (c : List Nat)
+/-- a fetch that replaces the epoch's (period's) descriptors by the answer keeps the invariant -/
+theorem linv_fetch_replace (k : Kind) (n : Net) {st : HState} {m : LMon} (ep arg : Nat) (c : List Nat)
     (ds : List Duty) (mk : Duty → Entry)
-    (hmk : ∀ d, (mk d).ep = ep ∧ (mk d).vidx = d.vidx ∧ (mk d).tag = d.tag ∧ (mk d).inC = c.contains d.vidx ∧
-      (isSync k = true ∨ (mk d).slot = d.slot))
+    (hmk : ∀ d, (mk d).ep = ep ∧ (mk d).vidx = d.vidx ∧ (mk d).tag = d.tag ∧
+      ((mk d).inC = true → d ∈ ds → d ∈ assigned k c ds) ∧ (isSync k = true ∨ (mk d).slot = d.slot))
     (h : LInv k st m) :
     LInv k { st with store := (st.store.reset ep).addAll mk ds } (LMon.step k n m (.fetch ep arg (.ok c ds))) := by
   refine ⟨?_, h.ok⟩
@@ -96,15 +96,10 @@ theorem linv_fetch_replace (k : Kind) (n : Net) (hk : k ≠ .att) {st : HState} 
     simp only [hne, if_false]
     exact h.sub e h2 hc
   · obtain ⟨h1, h2, h3, h4, h5⟩ := hmk d
-    rw [h4] at hc
-    refine ⟨assigned k c ds, by simp [h1], d, ?_, h2.symm, h3.symm, ?_⟩
-    · cases k with
-      | att => exact absurd rfl hk
-      | prop => exact List.mem_filter.mpr ⟨hd, hc⟩
-      | sync => exact List.mem_filter.mpr ⟨hd, hc⟩
-    · rcases h5 with h5 | h5
-      · exact Or.inl h5
-      · exact Or.inr h5.symm
+    refine ⟨assigned k c ds, by simp [h1], d, h4 hc hd, h2.symm, h3.symm, ?_⟩
+    rcases h5 with h5 | h5
+    · exact Or.inl h5
+    · exact Or.inr h5.symm
 
 theorem propFetch_linv (n : Net) {st : HState} {m : LMon} (ep : Nat) (r : FetchRes) (h : LInv .prop st m) :
     LInv .prop (propFetch st ep r).1 (lrun .prop n m (propFetch st ep r).2) := by
@@ -112,8 +107,8 @@ theorem propFetch_linv (n : Net) {st : HState} {m : LMon} (ep : Nat) (r : FetchR
   | noIdx => exact h
   | fail => exact h
   | ok c ds =>
-    exact linv_fetch_replace .prop n (by decide) ep ep c ds (propEntry ep c)
-      (fun d => ⟨rfl, rfl, rfl, rfl, Or.inr rfl⟩) h
+    exact linv_fetch_replace .prop n ep ep c ds (propEntry ep c)
+      (fun d => ⟨rfl, rfl, rfl, fun hc hd => List.mem_filter.mpr ⟨hd, hc⟩, Or.inr rfl⟩) h
 
 theorem syncFetch_linv (n : Net) {st : HState} {m : LMon} (p clock : Nat) (r : FetchRes) (h : LInv .sync st m) :
     LInv .sync (syncFetch n st p clock r).1 (lrun .sync n m (syncFetch n st p clock r).2.2) := by
@@ -121,8 +116,8 @@ theorem syncFetch_linv (n : Net) {st : HState} {m : LMon} (p clock : Nat) (r : F
   | noIdx => exact h
   | fail => exact h
   | ok c ds =>
-    exact linv_fetch_replace .sync n (by decide) p (max (p * n.epp) (n.epoch clock)) c ds (syncEntry p c)
-      (fun d => ⟨rfl, rfl, rfl, rfl, Or.inl rfl⟩) h
+    exact linv_fetch_replace .sync n p (max (p * n.epp) (n.epoch clock)) c ds (syncEntry p c)
+      (fun d => ⟨rfl, rfl, rfl, fun hc hd => List.mem_filter.mpr ⟨hd, hc⟩, Or.inl rfl⟩) h
 
 theorem syncFetchNextPart_linv (n : Net) {st : HState} {m : LMon} (p clock : Nat) (r : FetchRes) (h : LInv .sync st m) :
     LInv .sync (syncFetchNextPart n st p clock r).1 (lrun .sync n m (syncFetchNextPart n st p clock r).2) := by
@@ -185,7 +180,68 @@ theorem propTick_linv (n : Net) {st : HState} {m : LMon} (slot clock : Nat) (r1 
     have h2 := linv_exec .prop n slot clock h1
     exact h2.of_store (propPost_store _ _ _)
 
-/-! ### whole runs (proposer, sync committee): no assumption on the event list -/
+/-! ### attester (its fetch now resets the epoch like the other two) -/
+
+theorem attFetch_linv (n : Net) {st : HState} {m : LMon} (ep : Nat) (r : FetchRes) (h : LInv .att st m) :
+    LInv .att (attFetch st ep r).1 (lrun .att n m (attFetch st ep r).2.2) := by
+  cases r with
+  | noIdx => exact h
+  | fail => exact h
+  | ok c ds =>
+    exact linv_fetch_replace .att n ep ep c ds (attEntry ep)
+      (fun d => ⟨rfl, rfl, rfl, fun _ hd => hd, Or.inr rfl⟩) h
+
+theorem attFetchNextPart_linv (n : Net) {st : HState} {m : LMon} (E t : Nat) (r : FetchRes) (h : LInv .att st m) :
+    LInv .att (attFetchNextPart n st E t r).1 (lrun .att n m (attFetchNextPart n st E t r).2) := by
+  unfold attFetchNextPart
+  split
+  · have := attFetch_linv n (E + 1) r h
+    split
+    · rename_i st2 o heq
+      simp only [heq] at this
+      exact this.mono (fun x hx => hx)
+    · rename_i st2 o heq
+      simp only [heq] at this
+      exact this
+  · exact h
+
+theorem attProcessFetching_linv (n : Net) {st : HState} {m : LMon} (E t : Nat) (r1 r2 : FetchRes) (h : LInv .att st m) :
+    LInv .att (attProcessFetching n st E t r1 r2).1 (lrun .att n m (attProcessFetching n st E t r1 r2).2) := by
+  unfold attProcessFetching
+  split
+  · have h1 := attFetch_linv n E r1 h
+    split
+    · rename_i st1 o1 heq
+      simp only [heq] at h1
+      exact h1
+    · rename_i st1 o1 heq
+      simp only [heq] at h1
+      have h2 := attFetchNextPart_linv n (st := { st1 with fetchCur := false }) E t r2 (h1.mono (fun x hx => hx))
+      simp only [lrun_append]
+      exact h2
+  · exact attFetchNextPart_linv n E t r1 h
+
+theorem attTick_linv (n : Net) {st : HState} {m : LMon} (slot clock : Nat) (r1 r2 : FetchRes) (h : LInv .att st m) :
+    LInv .att (attTick n st slot clock r1 r2).1 (lrun .att n m (attTick n st slot clock r1 r2).2) := by
+  obtain ⟨store, ff, fc, fn, ic⟩ := st
+  cases ff
+  · simp only [attTick, Bool.false_eq_true, if_false, lrun_append]
+    have h1 := linv_exec .att n slot clock h
+    have h0 : LInv .att (if ic = true then
+        (⟨store.reset (n.epoch slot), false, fc, fn, false⟩ : HState) else ⟨store, false, fc, fn, ic⟩)
+        (lrun .att n m (execOf .att n slot clock ⟨store, false, fc, fn, ic⟩)) := by
+      split
+      · exact h1.mono (fun x hx => (mem_reset.mp hx).1)
+      · exact h1
+    have h2 := attProcessFetching_linv n (n.epoch slot) slot r1 r2 h0
+    exact h2.of_store (attPost_store _ _ _)
+  · simp only [attTick, if_true, lrun_append]
+    have h1 := attProcessFetching_linv n (st := ⟨store, false, fc, fn, false⟩) (n.epoch slot) slot r1 r2
+      (h.mono (fun x hx => hx))
+    have h2 := linv_exec .att n slot clock h1
+    exact h2.of_store (attPost_store _ _ _)
+
+/-! ### whole runs: no assumption on the event list, any handler -/
 
 theorem propStep_linv (n : Net) {st : HState} {m : LMon} (e : Event) (h : LInv .prop st m) :
     LInv .prop (propStep n st e).1 (lrun .prop n m (propStep n st e).2) := by
@@ -198,57 +254,73 @@ theorem propStep_linv (n : Net) {st : HState} {m : LMon} (e : Event) (h : LInv .
     · exact h
   | indices clock => exact h.mono (fun x hx => hx)
 
-theorem syncStep_linv (n : Net) {st : HState} {m : LMon} (e : Event) (h : LInv .sync st m) :
-    LInv .sync (syncStep n st e).1 (lrun .sync n m (syncStep n st e).2) := by
-  cases e with
-  | tick slot clock r1 r2 => exact syncTick_linv n slot clock r1 r2 h
-  | reorg slot prev cur =>
-    simp only [syncStep, syncReorg, lrun_nil]
-    split
-    · exact h.mono (fun x hx => (mem_reset.mp hx).1)
-    · exact h
-  | indices clock =>
-    simp only [syncStep, syncIndices, lrun_nil]
-    split <;> exact h.mono (fun x hx => hx)
+theorem syncReorg_store (n : Net) (st : HState) (slot : Nat) (cur : Bool) :
+    ∀ x ∈ (syncReorg n st slot cur).store, x ∈ st.store := by
+  intro x hx
+  unfold syncReorg at hx
+  split at hx
+  · exact (mem_reset.mp hx).1
+  · exact hx
 
-theorem prop_onlyLatest_runFrom (n : Net) : ∀ (evs : List Event) (st : HState) (m : LMon), LInv .prop st m →
-    (lrun .prop n m (runFrom .prop n st evs)).ok = true := by
+theorem syncIndices_store (n : Net) (st : HState) (c : Nat) : (syncIndices n st c).store = st.store := by
+  unfold syncIndices; split <;> rfl
+
+theorem step_linv (k : Kind) (n : Net) {rs : RState} {m : LMon} (e : Event) (h : LInv k rs.st m) :
+    LInv k (step k n rs e).1.st (lrun k n m (step k n rs e).2) := by
+  cases k with
+  | att =>
+    cases e with
+    | tick slot clock r1 r2 =>
+      exact attTick_linv n slot clock r1 r2 (h.mono (fun x hx => by rw [repairPre_store] at hx; exact hx))
+    | reorg slot prev cur =>
+      simp only [step, attReorgN, lrun_nil]
+      split
+      · exact h.mono (fun x hx => by rw [lateFix_store] at hx; exact attReorg_store n _ slot prev cur x hx)
+      · exact h.mono (attReorg_store n _ slot prev cur)
+    | indices clock =>
+      simp only [step, attIndicesN, lrun_nil]
+      split
+      · exact h.mono (fun x hx => by rw [lateFix_store] at hx; exact attIndices_store n _ clock x hx)
+      · exact h.mono (attIndices_store n _ clock)
+  | prop => exact propStep_linv n e h
+  | sync =>
+    cases e with
+    | tick slot clock r1 r2 =>
+      exact syncTick_linv n slot clock r1 r2 (h.mono (fun x hx => by rw [repairPre_store] at hx; exact hx))
+    | reorg slot prev cur =>
+      simp only [step, syncReorgN, lrun_nil]
+      split
+      · exact h.mono (fun x hx => by rw [lateFix_store] at hx; exact syncReorg_store n _ slot cur x hx)
+      · exact h.mono (syncReorg_store n _ slot cur)
+    | indices clock =>
+      simp only [step, lrun_nil]
+      exact h.mono (fun x hx => by rw [syncIndices_store] at hx; exact hx)
+
+theorem onlyLatest_runFrom (k : Kind) (n : Net) : ∀ (evs : List Event) (rs : RState) (m : LMon), LInv k rs.st m →
+    (lrun k n m (runFrom k n rs evs)).ok = true := by
   intro evs
   induction evs with
-  | nil => intro st m h; exact h.ok
+  | nil => intro rs m h; exact h.ok
   | cons e es ih =>
-    intro st m h
-    simp only [runFrom, lrun_append, step]
-    exact ih _ _ (propStep_linv n e h)
-
-theorem sync_onlyLatest_runFrom (n : Net) : ∀ (evs : List Event) (st : HState) (m : LMon), LInv .sync st m →
-    (lrun .sync n m (runFrom .sync n st evs)).ok = true := by
-  intro evs
-  induction evs with
-  | nil => intro st m h; exact h.ok
-  | cons e es ih =>
-    intro st m h
-    simp only [runFrom, lrun_append, step]
-    exact ih _ _ (syncStep_linv n e h)
+    intro rs m h
+    simp only [runFrom, lrun_append]
+    exact ih _ _ (step_linv k n e h)
 
 theorem linv_empty (k : Kind) (b1 b2 b3 b4 : Bool) : LInv k ⟨[], b1, b2, b3, b4⟩ LMon.init :=
   ⟨fun _ he => (nomatch he), rfl⟩
 
-theorem prop_onlyLatest_run (n : Net) (clock0 : Nat) (r0 : FetchRes) (evs : List Event) :
-    onlyLatestOK .prop n (run .prop n clock0 r0 evs) = true := by
+theorem onlyLatest_run (k : Kind) (n : Net) (clock0 : Nat) (r0 : FetchRes) (evs : List Event) :
+    onlyLatestOK k n (run k n clock0 r0 evs) = true := by
   unfold onlyLatestOK run
-  have h0 := propFetch_linv n (n.epoch clock0) r0 (linv_empty .prop true false false false)
-  have := prop_onlyLatest_runFrom n evs _ _ h0
-  simpa [initH, propInit, lrun, List.foldl_append] using this
-
-theorem sync_onlyLatest_run (n : Net) (clock0 : Nat) (r0 : FetchRes) (evs : List Event) :
-    onlyLatestOK .sync n (run .sync n clock0 r0 evs) = true := by
-  unfold onlyLatestOK run
-  have h0 := syncFetch_linv n (n.periodOfSlot clock0) clock0 r0 (linv_empty .sync true true false false)
-  have h1 : LInv .sync (syncInit n clock0 r0).1 (lrun .sync n LMon.init (syncInit n clock0 r0).2) := by
-    simp only [syncInit]
-    exact h0.mono (fun x hx => hx)
-  have := sync_onlyLatest_runFrom n evs _ _ h1
-  simpa [initH, lrun, List.foldl_append] using this
+  have h0 : LInv k (initH k n clock0 r0).1.st (lrun k n LMon.init (initH k n clock0 r0).2) := by
+    cases k with
+    | att => exact linv_empty .att true true true false
+    | prop => exact propFetch_linv n (n.epoch clock0) r0 (linv_empty .prop true false false false)
+    | sync =>
+      have h1 := syncFetch_linv n (n.periodOfSlot clock0) clock0 r0 (linv_empty .sync true true false false)
+      simp only [initH, syncInit]
+      exact h1.mono (fun x hx => hx)
+  have := onlyLatest_runFrom k n evs _ _ h0
+  simpa [lrun, List.foldl_append] using this
 
 end Ssv.Duties
